@@ -183,7 +183,7 @@ TR_RULE = ('one run = one tree of nested crossings (invoke -> guest makes 0-3 ca
            '(an entry that aborted before the guest ran may be announced-and-closed or not announced), the timing vector must hold exactly one record of the right kind and '
            'identity per crossing with a time inside the simulated span; quick tier enumerates 24 tree shapes (depth<=3, width<=2) x 2 backends x 1-2 sandboxes x every single '
            'abort position; builds: hooks only, timing only, both, and an application that defines only the IN or only the OUT notification (the recorded sequence must be the full word with the other kind left out); non-trivial = an abort fired or the state changed inside a crossing; distinct = event-log hashes')
-TR_WORLD = dict(world='transition', variants=['hooks', 'timing', 'both', 'inonly', 'outonly'], quick=dict(count=200000, time_limit=60, enumerate=True),
+TR_WORLD = dict(world='transition', variants=['hooks', 'timing', 'both', 'inonly', 'outonly', 'wide'], quick=dict(count=200000, time_limit=60, enumerate=True),
                 thorough=dict(count=9000000, time_limit=900, enumerate=True))
 PROPS.update({
     'C19': dict(level='fault_enumeration', worlds=[TR_WORLD], rule=TR_RULE,
@@ -234,3 +234,13 @@ PROPS['C13']['assumptions'] = PROPS['C13']['assumptions'] + ['same-instance conc
 PROPS['C12']['worlds'] = PROPS['C12']['worlds'] + [dict(world='transition', variants=['both'], quick=dict(count=40000, time_limit=60, enumerate=True),
                                                          thorough=dict(count=2000000, time_limit=600, enumerate=True))]
 PROPS['C12']['expect_probes'] = PROPS['C12']['expect_probes'] + ['inner_abort_caught_by_outer_callback']
+
+# C09 also runs the abi world (defined above): an int cell rewritten between the library's reads
+PROPS['C09']['worlds'] = PROPS['C09']['worlds'] + [ABI_WORLD]
+PROPS['C09']['rule'] = PROPS['C09']['rule'] + ('; world abi (guest int wider than the application\'s): copy_and_verify on an int that lives in sandbox memory while the guest rewrites the cell at the '
+                                               'library\'s k-th access to it - what is delivered was in the cell at some moment, or the read aborts')
+PROPS['C09']['expect_probes'] = PROPS['C09']['expect_probes'] + ['F2_int_cell_rewritten_between_accesses']
+# round 8 of seeded changes
+PROPS['C19']['expect_probes'] = PROPS['C19']['expect_probes'] + ['F9_unrepresentable_callback_argument']
+PROPS['C10']['expect_probes'] = PROPS['C10']['expect_probes'] + ['memcmp_count_read_from_sandbox_memory', 'F2_count_cell_rewritten_during_memcmp']
+PROPS['C04']['expect_probes'] = PROPS['C04']['expect_probes'] + ['pointer_cell_watched_during_store']
